@@ -55,6 +55,10 @@ def canary_ok(big, sl):
 def selftest(case):
     import numba
 
+    if MODE == 'S3':
+        # never perform a real out-of-bounds access in the unsanitized build: it would corrupt the harness's own heap
+        return dict(serial='not-run', callee='not-run', prange_iter3='not-run')
+
     @numba.njit
     def serial_oob(a, i):
         return a[i]
